@@ -147,7 +147,7 @@ func ruleReduceDriver(c *Ctx, prop string) {
 	if c.tier == "thorough" {
 		shapes = append(shapes, []int64{2, 3, 4, 5, 6}, []int64{1, 1, 2, 1, 3}, []int64{2, 2}, []int64{1}, []int64{4, 1, 1, 2})
 	}
-	bad, cells := "", 0
+	bad, lost, cells := "", "", 0
 	badPos := c.pos(driver.Pos())
 	for _, sh := range shapes {
 		r := int64(len(sh))
@@ -176,7 +176,7 @@ func ruleReduceDriver(c *Ctx, prop string) {
 			tshape := mk(sh)
 			t := pval{k: pShaped, i: 0, j: tshape.i}
 			var seq []red
-			p := &pinterp{c: c, budget: 400000}
+			p := &pinterp{c: c, budget: 400000, trace: os.Getenv("R34TRACE") != ""}
 			p.onReduce = func(fn *ssa.Function, call *ssa.Call, name string, shape, ax []int64) {
 				seq = append(seq, red{append([]int64{}, shape...), append([]int64{}, ax...)})
 			}
@@ -214,6 +214,13 @@ func ruleReduceDriver(c *Ctx, prop string) {
 					parts = append(parts, fmtInts(x.shape)+" along "+fmtInts(x.axes))
 				}
 				return strings.Join(parts, "; ")
+			}
+			if h == nil || len(res) != 2 {
+				// the walk forked on a value it does not know or stopped: what it saw on the way is not a sequence
+				if lost == "" {
+					lost = fmt.Sprintf("with %s the driver cannot be followed to a single outcome", desc)
+				}
+				continue
 			}
 			if render(seq) != render(want) && (wantAll == nil || render(seq) != render(wantAll)) {
 				if bad == "" {
@@ -259,6 +266,10 @@ func ruleReduceDriver(c *Ctx, prop string) {
 		}
 	}
 	c.counts["R34.driver_cells"] += cells
+	if bad == "" && lost != "" {
+		c.undecided("R34", "R34b:driver:ops.ReduceAxes", badPos, lost)
+		return
+	}
 	c.decide(bad == "", "R34", "R34b:driver:ops.ReduceAxes", badPos,
 		fmt.Sprintf("%d table cells (shapes of rank 1..4, 1..5 in the thorough tier, x axis lists, unsorted and with a duplicate): every reduction is along axis 1 of the (outer, extent, inner) view, distinct axes in descending order, the result has the reduced shape, the argument keeps its shape", cells), bad)
 }
@@ -478,6 +489,9 @@ func ruleBroadcastTable(c *Ctx, prop string) {
 		name string
 		uni  bool
 	}{{multi, "multidirectional", false}, {uni, "unidirectional", true}} {
+		if prop == "C10" && ent.name != "unidirectional" {
+			continue // PRelu's slope is broadcast unidirectionally; the other helper is none of C10's business
+		}
 		bad, badPos, cells, evaluated := "", c.pos(ent.fn.Pos()), 0, 0
 		covered := map[*ssa.Function]bool{}
 		for _, a := range shapes {
@@ -500,7 +514,7 @@ func ruleBroadcastTable(c *Ctx, prop string) {
 					return l
 				}
 				A, B := pval{k: pShaped, i: 0, j: la.i, m: mk(iota_(prodInts(a))).i}, pval{k: pShaped, i: 1, j: lb.i, m: mk(iota_(prodInts(b))).i}
-				p := &pinterp{c: c, budget: 300000}
+				p := &pinterp{c: c, budget: 300000, objects: true}
 				tiled := ""
 				p.onRepeat = func(fn *ssa.Function, call *ssa.Call, shape []int64, axis, n int64) {
 					if shape[axis] != 1 && tiled == "" {
@@ -521,11 +535,12 @@ func ruleBroadcastTable(c *Ctx, prop string) {
 						bad = s
 					}
 				}
-				if tiled != "" {
+				if tiled != "" && len(res) == 3 && h != nil {
 					set(desc + ": " + tiled + " — the elements are tiled instead of the shapes being refused")
 					continue
 				}
 				if len(res) != 3 || h == nil {
+					// (a Repeat seen on a walk that forked on a value it does not know is not an observation)
 					if os.Getenv("R36DEBUG") != "" {
 						fmt.Printf("R36DEBUG unfollowed %s: res=%v heap=%v aborted=%v\n", desc, res, h != nil, p.aborted)
 					}
@@ -706,6 +721,10 @@ func (c *Ctx) applyTableOverrides(from int) {
 			if j := strings.LastIndex(rest, ":"); j >= 0 {
 				table = c.tableCovered["reader:"+rest[:j]]
 			}
+		case strings.HasPrefix(o.Key, "R9c:") && strings.HasSuffix(o.Key, ":duplicates"):
+			// R9c:<label>:duplicates - the axis table of that source has the requests that name an axis twice (as
+			// they are, and in the other spelling) among its must-refuse cells
+			table = c.tableCovered["R9f:"+strings.TrimSuffix(strings.TrimPrefix(o.Key, "R9c:"), ":duplicates")+":duplicates"]
 		case strings.HasPrefix(o.Key, "R9c:") && strings.HasSuffix(o.Key, ":activations-length"):
 			table = c.tableCovered["table:recurrent:"+strings.TrimSuffix(strings.TrimPrefix(o.Key, "R9c:"), ":activations-length")]
 		case strings.HasPrefix(o.Key, "R12:P"):
@@ -734,6 +753,19 @@ func (c *Ctx) applyTableOverrides(from int) {
 			}
 		case o.Key == "R5:M10":
 			table = c.tableCovered["table:opset"]
+		case o.Key == "R33:optional-attr:LinearRegressor.intercepts":
+			// cells without the attribute are among the table's: a use of the nil tensor would end them in a panic
+			table = c.tableCovered["table:linear-regressor"]
+		case o.Key == "R7:unary:PRelu":
+			table = c.tableCovered["table:prelu"]
+		case o.Key == "R7:unary:PRelu":
+			table = c.tableCovered["table:prelu"]
+		case o.Key == "R16:shape:Gemm":
+			table = c.tableCovered["table:gemm"]
+		case o.Key == "R16:shape:Scaler":
+			table = c.tableCovered["table:scaler"]
+		case o.Key == "R16:shape:LinearRegressor":
+			table = c.tableCovered["table:linear-regressor"]
 		case strings.HasPrefix(o.Key, "R16:matmul:"):
 			// vector promotion and its undoing, which axes are stretched, operand order of the per-batch product,
 			// the result shape: all visible in the elements of the provenance table
@@ -764,6 +796,9 @@ func (c *Ctx) applyTableOverrides(from int) {
 			table = c.tableCovered["table:conv"]
 		case strings.HasPrefix(o.Key, "R6:T6:"), strings.HasPrefix(o.Key, "R6:T7:"):
 			table = c.tableCovered["table:gate"]
+		case o.Key == "R6:T5:Gemm":
+			// the Gemm table has cells without C for every transpose combination
+			table = c.tableCovered["table:gemm"]
 		case o.Key == "R6:T5:RNN" || o.Key == "R6:T5:GRU" || o.Key == "R6:T5:LSTM":
 			// the recurrent table walks Apply with every optional input absent in some cell: a method call on the
 			// nil value would end that walk
